@@ -28,7 +28,7 @@ PURE_MODELS = {
 
 class Row:
     """One evaluated path."""
-    __slots__ = ("facts", "atoms", "effects", "outcome", "ret", "store", "trace", "epochs")
+    __slots__ = ("facts", "atoms", "effects", "outcome", "ret", "store", "trace", "epochs", "kind", "target")
 
     def __init__(self):
         self.facts = None
@@ -133,9 +133,13 @@ def affects(pt, ev_pt, locs):
 
 class Evaluator:
     def __init__(self, crate, inline=(), inline_depth=3, stop_blocks=(), ptr=64, pure_calls=(),
-                 max_paths=MAX_PATHS, record_trace=False, extra_crates=(), effects=None, max_blocks=None):
+                 max_paths=MAX_PATHS, record_trace=False, extra_crates=(), effects=None, max_blocks=None,
+                 summaries=(), sumcache=None):
         self.effects = effects
         self.max_blocks = max_blocks
+        self.summaries = tuple(summaries)
+        self._sumcache = sumcache if sumcache is not None else {}
+        self._fresh = 0
         self.crate = crate
         self.crates = [crate] + list(extra_crates)
         self.inline = tuple(inline)
@@ -728,10 +732,12 @@ class Evaluator:
                         self._walk(s2, fn, frame, b)
                 return
             if "call" in t:
-                nxt = self._call(st, fn, frame, bb, t)
-                if nxt is None:
+                conts = self._call(st, fn, frame, bb, t)
+                if not conts:
                     return
-                fn, frame, bb = nxt
+                for (s2, f2, fr2, b2) in conts[:-1]:
+                    self._walk(s2, f2, fr2, b2)
+                st, fn, frame, bb = conts[-1]
                 continue
             # resume / abort / other
             self._finish(st, ("diverge", "term"))
@@ -740,23 +746,43 @@ class Evaluator:
     def _escaped_local(self, st, pt):
         return False
 
+    def fresh(self, tag):
+        self._fresh += 1
+        return ("unknown", "%s#%d" % (tag, self._fresh))
+
     def _call(self, st, fn, frame, bb, t):
+        """-> list of continuations (state, fn, frame, bb)"""
         c = t["call"]
         args = [self.operand(st, frame, fn, a) for a in t["args"]]
         dest = self.resolve(st, frame, fn, Place(t["dest"]))
         target = t["target"]
         callee = callee_name(c)
         cid = callee_id(c)
+        sp = t.get("sp", "")
+
+        def finish_value(st, val):
+            self.write(st, dest, val)
+            if root_of(dest)[0] != "local":
+                st.effects.append(("store", dest, val, sp))
+            if target is None:
+                self._finish(st, ("diverge", "call:" + callee))
+                return []
+            return [(st, fn, frame, target)]
+
         # ---- modelled callees
         m = self.model_call(st, callee, c, args)
         if m is not None:
-            self.write(st, dest, m)
-            if root_of(dest)[0] != "local":
-                st.effects.append(("store", dest, m, t.get("sp", "")))
-            if target is None:
-                self._finish(st, ("diverge", "call:" + callee))
-                return None
-            return fn, frame, target
+            return finish_value(st, m)
+        # ---- closure invocation with a known closure value
+        if callee.endswith(("FnOnce::call_once", "FnMut::call_mut", "Fn::call")) and args:
+            clo = args[0]
+            if clo[0] == "ref":
+                clo = self.read(st, clo[1])
+            if clo[0] == "closure" and len(st.frames) <= self.inline_depth + 4:
+                cf = self.lookup_fn(clo[1])
+                if cf is not None:
+                    targs = args[1][1] if (len(args) > 1 and args[1][0] == "tuple") else (() if len(args) < 2 or args[1][0] == "unit" else (args[1],))
+                    return self._enter(st, cf, clo, list(targs), dest, target, callee, sp)
         # ---- inlined callees
         cf = self.lookup_fn(cid) if cid else None
         if cf is not None and len(st.frames) <= self.inline_depth and any(_sfx(callee, s) or s == "*" for s in self.inline):
@@ -765,13 +791,42 @@ class Evaluator:
             for i, a in enumerate(args):
                 st.store[("local", nf, i + 1)] = a
             st.frames.append((cf, nf, dest, target))
-            st.effects.append(("enter", callee, tuple(args), t.get("sp", "")))
-            return cf, nf, 0
+            st.effects.append(("enter", callee, tuple(args), sp))
+            return [(st, cf, nf, 0)]
+        # ---- summarised callees: fork over the abstract return alternatives
+        if cf is not None and any(_sfx(callee, s) for s in self.summaries) and len(st.frames) <= self.inline_depth + 2:
+            alts = self._summary_alts(cf)
+            if alts:
+                st.seq += 1
+                seq = st.seq
+                st.effects.append(("call", callee, tuple(args), sp, seq, tuple(c.get("closures", []))))
+                self._havoc_call(st, cid, args)
+                conts = []
+                for i, alt in enumerate(alts):
+                    s2 = st.copy() if i < len(alts) - 1 else st
+                    if alt[0] == "closure_call":
+                        clo = args[alt[1] - 1] if alt[1] - 1 < len(args) else None
+                        if clo is not None and clo[0] == "ref":
+                            clo = self.read(s2, clo[1])
+                        ccf = self.lookup_fn(clo[1]) if (clo is not None and clo[0] == "closure") else None
+                        if ccf is None:
+                            conts += finish_value(s2, self.fresh("sumret:" + callee))
+                            continue
+                        targs = [args[j - 1] if (j and j - 1 < len(args)) else self.fresh("arg:%s" % callee.split("::")[-1])
+                                 for j in alt[2]]
+                        conts += self._enter(s2, ccf, clo, targs, dest, target, callee, sp)
+                    else:
+                        conts += finish_value(s2, self._instantiate(alt, callee))
+                return conts
         # ---- opaque call
         st.seq += 1
         seq = st.seq
         res = ("call", callee, tuple(args), seq)
-        st.effects.append(("call", callee, tuple(args), t.get("sp", ""), seq, tuple(c.get("closures", []))))
+        st.effects.append(("call", callee, tuple(args), sp, seq, tuple(c.get("closures", []))))
+        self._havoc_call(st, cid, args)
+        return finish_value(st, res)
+
+    def _havoc_call(self, st, cid, args):
         summ = self.effects.lookup(cid) if (self.effects is not None and cid) else None
         for j, a in enumerate(args):
             if summ is not None and a[0] == "ref" and a[2]:
@@ -781,13 +836,70 @@ class Evaluator:
                     self.havoc(st, a[1], summ["W"])
             else:
                 self._havoc_arg(st, a)
-        self.write(st, dest, res)
-        if root_of(dest)[0] != "local":
-            st.effects.append(("store", dest, res, t.get("sp", "")))
-        if target is None:
-            self._finish(st, ("diverge", "call:" + callee))
-            return None
-        return fn, frame, target
+
+    def _enter(self, st, cf, clo, targs, dest, target, callee, sp):
+        """inline closure body `cf` with environment `clo` and explicit arguments `targs`"""
+        self.frame_counter += 1
+        nf = self.frame_counter
+        envty = cf.locals[1]["tk"].get("k") if len(cf.locals) > 1 else None
+        if envty == "ref":
+            holder = ("local", nf, 100000)
+            st.store[holder] = clo
+            st.store[("local", nf, 1)] = ("ref", holder, True)
+        else:
+            st.store[("local", nf, 1)] = clo
+        for i, a in enumerate(targs):
+            st.store[("local", nf, i + 2)] = a
+        st.frames.append((cf, nf, dest, target))
+        st.effects.append(("enter", cf.name, tuple(targs), sp))
+        return [(st, cf, nf, 0)]
+
+    def _summary_alts(self, cf):
+        if cf.id not in self._sumcache:
+            self._sumcache[cf.id] = None      # recursion guard
+            sub = Evaluator(self.crate, inline=self.inline, inline_depth=self.inline_depth, ptr=self.ptr,
+                            pure_calls=self.pure_calls, max_paths=self.max_paths, extra_crates=self.crates[1:],
+                            effects=self.effects, summaries=self.summaries, sumcache=self._sumcache)
+            rows = sub.run(cf)
+            alts = {}
+            for r in rows:
+                if r.outcome[0] != "return" or r.ret is None:
+                    continue
+                a = self._abstract(r.ret)
+                alts[repr(a)] = a
+            self._sumcache[cf.id] = list(alts.values())
+        return self._sumcache[cf.id]
+
+    def _abstract(self, t):
+        k = t[0]
+        if k == "call" and t[1].endswith(("FnOnce::call_once", "FnMut::call_mut", "Fn::call")) and t[2] and t[2][0][0] == "param":
+            targs = t[2][1][1] if (len(t[2]) > 1 and t[2][1][0] == "tuple") else (() if len(t[2]) < 2 or t[2][1][0] == "unit" else (t[2][1],))
+            spec = []
+            for a in targs:
+                if a[0] == "param":
+                    spec.append(a[1])
+                elif a[0] == "ref" and a[1][0] == "deref" and a[1][1][0] == "param":
+                    spec.append(a[1][1][1])
+                else:
+                    spec.append(0)
+            return ("closure_call", t[2][0][1], tuple(spec))
+        if k in ("int", "enum", "unit"):
+            return t
+        if k == "agg":
+            return ("agg", t[1], t[2], t[3], tuple(self._abstract(x) for x in t[4]))
+        if k == "tuple":
+            return ("tuple", tuple(self._abstract(x) for x in t[1]))
+        return ("hole",)
+
+    def _instantiate(self, a, callee):
+        k = a[0]
+        if k == "hole" or k == "closure_call":
+            return self.fresh("sum:" + callee.split("::")[-1])
+        if k == "agg":
+            return ("agg", a[1], a[2], a[3], tuple(self._instantiate(x, callee) for x in a[4]))
+        if k == "tuple":
+            return ("tuple", tuple(self._instantiate(x, callee) for x in a[1]))
+        return a
 
     def _havoc_arg(self, st, a):
         if a[0] == "ref" and a[2]:
@@ -819,6 +931,12 @@ class Evaluator:
                 va, vb = self._deref_val(st, args[0]), self._deref_val(st, args[1])
                 op = "Eq" if callee.endswith("::eq") else "Ne"
                 return self.mk_bin(st, op, va, vb, "bool")
+        if callee.endswith("Option::<T>::unwrap_or") and len(args) == 2:
+            o = args[0]
+            if o[0] == "agg" and o[2] == "Some":
+                return o[4][0]
+            if o[0] == "agg" and o[2] == "None":
+                return args[1]
         tail = callee
         if _sfx(tail, "core::cmp::min") or tail.endswith("cmp::Ord::min") or tail == "core::cmp::min":
             return self._minmax(st, "min", args)
@@ -840,12 +958,14 @@ class Evaluator:
         if tail.endswith("::len") and tail.startswith("core::slice"):
             v = self._deref_val(st, args[0]) if args[0][0] == "ref" else args[0]
             return ("len", v)
-        if tail.startswith("core::convert::") and (tail.endswith("::from") or tail.endswith("::into")) and len(args) == 1:
+        if "convert::" in tail and (tail.endswith("::from") or tail.endswith("::into")) and len(args) == 1:
             ga = c.get("generic_args", [])
-            if ga and all(g in ("u8", "u16", "u32", "u64", "usize", "i8", "i16", "i32", "i64", "isize", "bool") for g in ga[:2]):
+            ints = ("u8", "u16", "u32", "u64", "usize", "i8", "i16", "i32", "i64", "isize", "bool")
+            if len(ga) >= 2 and all(g in ints for g in ga[:2]):
+                dst = ga[0] if tail.endswith("::from") else ga[1]
                 if is_const(args[0]):
                     return ("int", const_val(args[0]))
-                return ("cast", args[0], ga[0], "widen")
+                return ("cast", args[0], dst, "widen")
         for s in self.pure_calls:
             if _sfx(callee, s):
                 return ("pure", s, tuple(self._deref_val(st, a) if a[0] == "ref" and not a[2] else a for a in args))
